@@ -58,7 +58,8 @@ def trace_cfg(name):
 
 
 def design(run, name, text):
-    res = run.tlc("Wire", text, timeout=1500)
+    # small models: a few workers beat one per core (less contention, also on a busy machine)
+    res = run.tlc("Wire", text, timeout=1500, workers=4 if run.tier == "quick" else 8)
     if res.violated or not res.ok:
         raise Infra("Wire.tla (%s) violates %s: specification bug" % (name, res.violated or res.error))
     run.log("design %s: %d states, %d transitions, %.0fs" % (name, res.distinct, res.generated, res.wall))
@@ -94,43 +95,59 @@ def check_c07(prop, tier, seed):
                quiets="{1, 2}" if quick else "{1, 2, 3}", maxpipe=2, tail=WF_INV))
     # one command per framing class, longer pipelines
     design(run, "framing classes, pipelines <= %d" % (3 if quick else 4),
-           cfg(ops=reps, textops='{"set","get","touch","noop"}', keylens="{1}", vallens="{2}", quiets="{1, 2}",
+           cfg(ops=reps, textops='{"set","get","touch","noop"}', keylens="{1}", vallens="{2}", quiets="{1}" if quick else "{1, 2}",
                maxpipe=3 if quick else 4, tail=WF_INV))
     # the real field lengths (24-byte header, 8 and 4 bytes of extras), single requests
     design(run, "wire lengths, single requests",
            cfg(hdr=24, sext=8, eext=4, ops=ALL_OPS, textops=ALL_TEXT, keylens="{1, 3}" if quick else "{1, 3, 7}",
                vallens="{0, 5}", quiets="{1, 2}", maxpipe=1, tail=WF_INV))
     out = run.path("c07.ndjson")
-    run.run_vh("wire", ["-mode", "c07-" + tier, "-out", out, "-seed", seed, "-n", 40 if quick else 400], timeout=2400)
+    run.run_vh("wire", ["-mode", "c07-" + tier, "-out", out, "-seed", seed, "-n", 40 if quick else 1500], timeout=2400)
     events, mism = validate(run, out)
     summary = [e for e in events if e["ev"] == "summary"][-1]
     dec = [e for e in events if e["ev"] == "decode"]
     det = [e for e in events if e["ev"] == "detect"]
     run.traces = summary["pipelines"]
     groups = collections.OrderedDict()
-    for m in mism:
-        e = events[m["l"] - 1]
-        if m["kind"] == "BadInput":
-            raise Infra("the driver produced a request outside the property's domain: %s" % json.dumps(e)[:600])
-        if e["ev"] == "detect":
-            sig = {"mkind": "Detect", "byte": "%#04x" % e["byte"], "answered": e["answered"]}
-            what = "first byte %#04x followed by a valid %s request: expected the %s protocol to answer, observed %s (%s)" % (
-                e["byte"], m["want"], m["want"], e["answered"], e.get("note", ""))
-        else:
-            seg = str(m["got"].get("seg", "")) if isinstance(m["got"], dict) else ""
-            segfam = seg.split("[")[0].split("(")[0]
-            sig = {"mkind": m["kind"], "proto": e["proto"], "op": e["sent"]["op"], "seg": segfam}
-            what = "%s: request %d/%d (%s, %s) of pipeline %s decoded differently from what was sent when the stream (%d bytes) arrives as %s (%s of the segmentations tried): expected %s, parser returned %s" % (
-                m["kind"], e["idx"] + 1, e["n"], e["sent"]["op"], e["proto"], e["pipe"], e["streamlen"], seg,
-                m["got"].get("nseg") if isinstance(m["got"], dict) else "?", json.dumps(m["want"])[:300], json.dumps(m["got"])[:500])
+
+    def add(sig, what, e, m):
         key = json.dumps(sig, sort_keys=True)
         g = groups.setdefault(key, {"sig": sig, "what": what, "n": 0, "examples": []})
         g["n"] += 1
         if len(g["examples"]) < 3:
             g["examples"].append({"event": e, "mismatch": m})
+
+    # per pipeline only the first request that went wrong counts: what follows it is a consequence
+    first_bad = {}
+    per_event = collections.OrderedDict()
+    for m in mism:
+        e = events[m["l"] - 1]
+        if m["kind"] == "BadInput":
+            raise Infra("the driver produced a request outside the property's domain: %s" % json.dumps(e)[:600])
+        if e["ev"] == "detect":
+            add({"mkind": "Detect", "byte": "%#04x" % e["byte"], "answered": e["answered"]},
+                "first byte %#04x followed by a valid %s request: expected the %s protocol to answer, observed %s (%s)" % (
+                    e["byte"], m["want"], m["want"], e["answered"], e.get("note", "")), e, m)
+            continue
+        first_bad[e["pipe"]] = min(first_bad.get(e["pipe"], e["idx"]), e["idx"])
+        per_event.setdefault(m["l"], []).append(m)
+    for l, ms in per_event.items():
+        e = events[l - 1]
+        if e["idx"] != first_bad[e["pipe"]]:
+            continue
+        kinds = set(m["kind"] for m in ms)
+        kind = "Group" if "Group" in kinds else "Exact" if "Exact" in kinds else "Field"
+        m = [x for x in ms if x["kind"] == kind][0]
+        segs = [str(x["got"].get("seg", "")) for x in ms if isinstance(x["got"], dict)]
+        segdep = "whole" not in segs      # delivered in one piece the request was decoded correctly
+        sig = {"mkind": kind, "proto": e["proto"], "op": e["sent"]["op"], "only_when_split": segdep}
+        what = "%s: request %d/%d (%s, %s) of pipeline %s was not decoded as sent when the stream (%d bytes) arrives as %s (%s of the segmentations tried%s): expected %s, parser returned %s" % (
+            kind, e["idx"] + 1, e["n"], e["sent"]["op"], e["proto"], e["pipe"], e["streamlen"], m["got"].get("seg"), m["got"].get("nseg"),
+            "; correct when it arrives in one piece" if segdep else "", json.dumps(m["want"])[:300], json.dumps(m["got"])[:500])
+        add(sig, what, e, m)
     for g in groups.values():
         ex = g["examples"][0]["event"]
-        run.candidate(g["sig"]["mkind"], g["what"] + " [%d such mismatches]" % g["n"], sig=g["sig"],
+        run.candidate(g["sig"]["mkind"], g["what"] + " [%d requests affected]" % g["n"], sig=g["sig"],
                       detail={"count": g["n"], "examples": g["examples"]},
                       replay={"driver": "wire", "mode": "c07-" + tier, "seed": seed, "pipe": ex.get("pipe"), "idx": ex.get("idx"),
                               "byte": ex.get("byte")})
@@ -168,7 +185,7 @@ def check_c11(prop, tier, seed):
     if not quick:
         design(run, "header grid, 24-byte header",
                cfg(spec="MalSpec", hdr=24, sext=8, eext=4, protos='{"bin"}', malops='{"set","appendq","get","getq","touch","noop","unknown"}',
-                   malkeys="{0, 1, 3}", malexts="{0, 4, 8}", maltotals="{0,1,3,4,7,8,11,12}", malhuge="TRUE", maxsegs=3, tail=MAL_INV))
+                   malkeys="{0, 1, 3}", malexts="{0, 4, 8}", maltotals="{0,1,3,4,7,8,11,12}", malhuge="TRUE", maxsegs=2, tail=MAL_INV))
     out = run.path("c11.ndjson")
     run.run_vh("wire", ["-mode", "c11-" + tier, "-out", out, "-seed", seed], timeout=3000)
     events, mism = validate(run, out)
